@@ -5,13 +5,16 @@ server pipeline), TraceTxPool.tla (linearizability search), TraceTxPoolSrv.tla (
                  (all interleavings of admission, worker, validator responses, consensus requests, block saved).
   2. P-EDGE    : every (pool state, call) edge of TxPoolSeq run on a fresh real TXPool, answers validated by TLC (TraceTxPool).
   3. P-VALIDATE: 2-4 goroutines hammer one real TXPool; TLC searches a linearization of every recorded history
-                 (real-time order, returned values, final listing).  Thorough: the driver is built with -race.
+                 (real-time order, returned values, final listing), incl. histories with contention on one hash and on
+                 removal by age (verify-block path).  The pool driver is built with -race; a race report inside
+                 txnpool/common or a runtime abort ("concurrent map writes") of the child process is a violation.
   4. server    : TLC-generated stimulus sequences (every edge to a depth + random walks) are given to the real TXPoolServer
                  through its real actors with stub validators; TLC validates the observed traces against TxPool (strict), and
                  evaluates the C37 monitor on every observed step (capacity, no second copy, get/clean/verify-block clauses).
                  Capacity runs use MAX_CAPACITY-1 real filler entries so that the real constant is the bound that is hit.
 """
 import json, os, random
+from vlib.core import NoVerdict
 
 CAPKEY = "txpool:capacity-overshoot-by-inflight"
 
@@ -89,7 +92,13 @@ def _server(ctx, b, scs, args, cfg, what, expect_over=False):
         return 0, 0
     for i, sc in enumerate(scs):
         sc["id"] = i + 1
-    out = ctx.driver(b, ["srv-run"] + args, input_obj=scs, timeout=3000)
+    try:
+        out = ctx.driver(b, ["srv-run"] + args, input_obj=scs, timeout=3000)
+    except NoVerdict as e:
+        if "fatal error: concurrent map" in str(e):   # runtime abort caused by unsynchronized access to the pool's map
+            ctx.violation("txpool-srv:fatal-concurrent-map-access", {"driver": str(e)[-3000:]}, replay={"kind": "srv-crash", "args": args})
+            return 0, 0
+        raise
     done = sorted([o for o in out if "steps" in o], key=lambda o: o["id"])
     if len(done) != len(scs):
         ctx.fail("server driver ran %d of %d scenarios" % (len(done), len(scs)))
@@ -209,7 +218,7 @@ def _edges(ctx, q, b):
     edges = _dedupe(ctx.gen("TxPoolSeq", "TxPoolSeq_gen.cfg" if q else "TxPoolSeq_gen_thorough.cfg", "EDGE", timeout=1500))
     if len(edges) < 1000:
         ctx.fail("too few pool edges: %d" % len(edges))
-    out = ctx.driver(b, ["seq-run", "2"], input_obj=edges)
+    out = ctx.driver(ctx.build("vd-poollin", race=True), ["seq-run", "2"], input_obj=edges)
     hs = [o for o in out if "calls" in o]
     summ = [o for o in out if o.get("summary")][0]
     if len(hs) != len(edges):
@@ -223,30 +232,38 @@ def _edges(ctx, q, b):
 
 
 def _lin(ctx, q, b):
-    # 3. concurrent histories
+    # 3. concurrent histories (the pool driver is a small binary, always built with the race detector)
     evals = 0
-    lb = ctx.build("vd-pool", race=True) if not q else b
+    lb = ctx.build("vd-poollin", race=True)
     env = {"GORACE": "log_path=%s halt_on_error=0 exitcode=0" % os.path.join(ctx.out, "race")}
-    plans = [(60, 2, 6, 2, ""), (60, 3, 6, 2, ""), (80, 4, 6, 2, ""), (300, 4, 6, 2, "hot")] if q else \
-            [(600, 2, 6, 2, ""), (800, 3, 6, 2, ""), (1200, 4, 6, 2, ""), (300, 4, 6, 0, ""), (300, 4, 6, 3, ""), (3000, 4, 6, 2, "hot")]
+    plans = [(60, 2, 6, 2, ""), (60, 3, 6, 2, ""), (80, 4, 6, 2, ""), (300, 4, 6, 2, "hot"), (300, 4, 6, 2, "stale")] if q else \
+            [(600, 2, 6, 2, ""), (800, 3, 6, 2, ""), (1200, 4, 6, 2, ""), (300, 4, 6, 0, ""), (300, 4, 6, 3, ""), (3000, 4, 6, 2, "hot"),
+             (3000, 4, 6, 2, "stale"), (500, 3, 6, 3, "stale")]
     overl = 0
     bymax = {}
-    for nh, ng, nops, maxtx, hot in plans:
-        out = ctx.driver(lb, ["lin-record", str(nh), str(ng), str(nops), str(maxtx)] + ([hot] if hot else []), env=env, timeout=3000)
+    for nh, ng, nops, maxtx, mode in plans:
+        out = ctx.driver(lb, ["lin-record", str(nh), str(ng), str(nops), str(maxtx)] + ([mode] if mode else []), env=env, timeout=3000)
         hs = [o for o in out if "calls" in o]
-        overl += [o for o in out if o.get("summary")][0]["overlapping_pairs"]
+        for cr in [o for o in out if o.get("crash")]:
+            # the Go runtime aborted the process: unsynchronized access to the pool's map (no recover() can catch it)
+            ctx.violation("txpool-lin:fatal-concurrent-map-access", {"what": cr.get("what"), "plan": [nh, ng, nops, maxtx, mode],
+                          "histories_completed_before_the_abort": len(hs), "stderr": cr.get("stderr", "")[:2500]},
+                          replay={"kind": "lin-crash", "plan": [nh, ng, nops, maxtx, mode], "stderr": cr.get("stderr", "")[:6000]})
+        overl += sum(o["overlapping_pairs"] for o in out if o.get("summary"))
         bymax.setdefault(maxtx, []).extend(hs)
     for maxtx, hs in sorted(bymax.items()):
         _validate_histories(ctx, hs, "lin", maxtx)
         evals += sum(len(h["calls"]) for h in hs)
-    ctx.sample({"concurrent_history_call": hs[0]["calls"][0], "overlapping_call_pairs": overl})
-    if overl < 50:
-        ctx.fail("the concurrent histories hardly overlap (%d overlapping pairs): nothing concurrent was tested" % overl)
+    ctx.sample({"concurrent_history_call": hs[0]["calls"][0] if hs else None, "overlapping_call_pairs": overl})
     races = [f for f in os.listdir(ctx.out) if f.startswith("race")]
     for f in races:
         txt = open(os.path.join(ctx.out, f)).read()
         if "txnpool/common" in txt:
-            ctx.violation("txpool-lin:data-race", {"report": txt[:3000]}, replay={"kind": "race", "report": txt[:6000]})
+            first = txt.split("==================")[1] if "==================" in txt else txt
+            ctx.violation("txpool-lin:data-race", {"report": first[:3000], "reports_in_file": txt.count("WARNING: DATA RACE")},
+                          replay={"kind": "race", "report": txt[:6000]})
+    if overl < 50 and not ctx.violations:
+        ctx.fail("the concurrent histories hardly overlap (%d overlapping pairs): nothing concurrent was tested" % overl)
     ctx.note("concurrent histories validated, %d overlapping pairs" % overl)
     return evals, overl
 
